@@ -308,6 +308,10 @@ func genC06(r *core.Rand, run int) *MuxScenario {
 	if tr.proto == "ws" && sp.Fault.Kind == "" && sp.WSClose == "normal" && len(sp.Msgs) >= 1 && len(sp.Handler.Resps) >= 1 && r.Chance(1, 3) {
 		sp.WSDuplex, sp.PingPong = true, false
 		sp.Handler.Steps = []HStep{{Op: "duplex"}}
+		if r.Chance(1, 2) {
+			// (a frame larger than the usual 4 KiB of a buffered writer)
+			sp.Handler.Resps[r.Intn(len(sp.Handler.Resps))].Size = r.Pick(4000, 5000, 9000)
+		}
 	}
 	if tr.proto == "http" && r.Chance(1, 5) {
 		sp.AcceptGzip = true
